@@ -379,8 +379,16 @@ pub mod client {
     }
     impl ClientNet {
         pub async fn get_record_from_network(&self, key: RecordKey, _cfg: &::ant_networking::GetRecordCfg) -> Result<Record, ::ant_networking::NetworkError> {
-            self.asked.borrow_mut().push(key);
-            self.reply.borrow_mut().take().expect("one reply per read")
+            self.asked.borrow_mut().push(key.clone());
+            let reply = self.reply.borrow_mut().take().expect("one reply per read");
+            // as Network::get_record_from_network (no retries): a split reply first goes through the network layer's
+            // own resolution (transplanted handle_split_record_error); only what that leaves unresolved reaches the client
+            if let Err(::ant_networking::NetworkError::GetRecordError(::ant_networking::GetRecordError::SplitRecord { result_map })) = &reply {
+                if let Some(record) = crate::split_items::Network::handle_split_record_error(result_map, &key)? {
+                    return Ok(record);
+                }
+            }
+            reply
         }
     }
     pub struct Client {
